@@ -11,6 +11,7 @@ import fiddle as fdl
 from mc import argmodel as M
 from mc import canon
 from mc import core
+import vfx
 from vfx import sigs as S
 
 PROP = 'C03'
@@ -67,6 +68,7 @@ def units(tier, seed):
       po, pk, nd, var, ko, kw = sig
       if var and (ko, kw) == ((), False) and po + pk <= 1 and nd == 0:
         out.append(('P', sig, 3))
+  out.append(('spellings', (0, 0, 0, False, (), False), 0))
   # cheapest first so the first counterexample is the simplest
   # biggest state spaces first (load balance); the minimal witness per
   # violation class is selected by the runner, not by visiting order.
@@ -460,7 +462,90 @@ def canonical_build(sig, model):
   return cfg
 
 
+def run_spellings(res):
+  """The same function configured under several spellings in one process
+  (plain function taken from the class, method bound to an instance,
+  classmethod bound to the class and its underlying function), in every
+  order: each Buildable reports the parameters of the object it was given
+  (reference: inspect.signature of that very object) and positional edits
+  address them."""
+  import inspect  # pylint: disable=g-import-not-at-top
+  import itertools  # pylint: disable=g-import-not-at-top
+
+  def fresh():
+    class K:
+
+      def m(self, a, b='db', *rest):
+        return vfx.rec('K.m', locals())
+
+      @classmethod
+      def cm(cls, a, b='db', *rest):
+        return vfx.rec('K.cm', {'a': a, 'b': b, 'rest': rest})
+
+    obj = K()
+    return {'plain': K.m, 'bound': obj.m, 'classmethod': K.cm,
+            'classmethod-func': K.__dict__['cm'].__func__,
+            'bound2': K().m}, obj
+
+  names = ['plain', 'bound', 'classmethod', 'classmethod-func', 'bound2']
+  for order in itertools.permutations(names, 3):
+    spellings, obj = fresh()
+    res.states += 1
+    res.nontrivial += 1
+    for name in order:
+      fn = spellings[name]
+      case = {'spellings': list(order), 'at': name}
+      want = list(inspect.signature(fn).parameters)
+      res.transitions += 1
+      res.evals += 1
+      try:
+        cfg = fdl.Config(fn)
+        got = list(cfg.__signature_info__.signature.parameters)
+        if got != want:
+          res.violation('C03/spellings/reported-parameters',
+                        f'{case}: Config reports {got}, the callable has '
+                        f'{want}', case)
+          break
+        npos = len(want) - 1      # everything but *rest
+        vals = [obj if p in ('self', 'cls') else f'V{i}'
+                for i, p in enumerate(want[:npos])]
+        for i, v in enumerate(vals):
+          cfg[i] = v
+        cfg[fdl.VARARGS:] = ['R0']
+        if list(cfg[:]) != vals + ['R0']:
+          res.violation('C03/spellings/positional-view',
+                        f'{case}: cfg[:] = {cfg[:]!r} expected '
+                        f'{vals + ["R0"]!r}', case)
+          break
+        vfx.reset()
+        built = canon.canon_built(fdl.build(cfg))
+        vfx.reset()
+        direct = canon.canon_built(fn(*vals, 'R0'))
+        if built != direct:
+          res.violation('C03/spellings/build-differs-from-call',
+                        f'{case}: {built} vs {direct}', case)
+          break
+        for bad_name in ('self', 'cls'):
+          if bad_name not in want:
+            try:
+              setattr(cfg, bad_name, 1)
+              res.violation('C03/spellings/unknown-name-accepted',
+                            f'{case}: cfg.{bad_name} = 1 accepted', case)
+            except (AttributeError, TypeError):
+              pass
+      except Exception as e:  # pylint: disable=broad-except
+        res.violation(f'C03/spellings/raises/{type(e).__name__}',
+                      f'{case}: {e}', case)
+        break
+    res.outcomes['spellings'] += 1
+
+
 def run_unit(unit, tier, seed):
+  if unit[0] == 'spellings':
+    res = core.Result()
+    run_spellings(res)
+    res.sample({'spellings': 'plain / bound / classmethod, every order of 3'})
+    return res
   phase, sig, vcap = unit
   sig = tuple(sig[:4]) + (tuple(sig[4]), sig[5])
   b = dict(bounds(tier), vcap=vcap)
@@ -476,6 +561,12 @@ def run_unit(unit, tier, seed):
 
 def replay(case):
   res = core.Result()
+  if 'spellings' in case:
+    run_spellings(res)
+    res.violations = [v for v in res.violations if v['case'] == case]
+    for v in res.violations:
+      print(v['what'])
+    return res
   sig = case['sig']
   sig = tuple(sig[:4]) + (tuple(sig[4]), sig[5])
   init = tuple(tuple(x) for x in case['init'])
